@@ -26,7 +26,9 @@ Spellings == {"plain", "raw"}
 \* a field is also judged inside a struct variant: with the rule on the variant, with the rule as the enum's rename_all_fields,
 \* and with the rule on the variant while the enum's rename_all / rename_all_fields name another rule (the variant's own rule wins;
 \* the enum's rename_all never reaches fields): the required name is the same in all of them (SerdeAttrs!RuleForField)
-FieldContexts == {"struct", "variant-rule", "enum-fields-rule", "variant-rule-over-enum-rules"}
+\* enum-fields-rule-after-ruled-variant: the rule is the enum's rename_all_fields and the variant is declared after a sibling variant
+\* that carries another rule of its own - serde resolves each variant on its own
+FieldContexts == {"struct", "variant-rule", "enum-fields-rule", "variant-rule-over-enum-rules", "enum-fields-rule-after-ruled-variant"}
 \* the container's rule may stand in its first #[serde(..)] attribute or in a later one (serde merges every #[serde(..)] attribute of an item)
 AttrSpellings == {"first-attribute", "rule-in-second-attribute"}
 \* model-level comparison M = P (counted, not judged)
